@@ -86,12 +86,24 @@ mod c12 {
     /// The invariant is built in rather than assumed: either `next == 1` with anything stored,
     /// or `D = Some(d)` with `d` the least multiple of the epoch size that is `>= next`.
     fn check_next_event_number(fresh: bool) -> (bool, u64, bool) {
+        check_next_event_number_at(fresh, false)
+    }
+
+    /// `at_epoch_start`: the live counter is an epoch multiple `k * E` (k any 32-bit number >= 1) - the states in which
+    /// the next epoch has to be stored; no 64-bit remainder is needed for them, so this part closes quickly.
+    fn check_next_event_number_at(fresh: bool, at_epoch_start: bool) -> (bool, u64, bool) {
         // Given `next != 1`, the invariant determines the durable boundary: the least epoch
         // multiple that is >= next. (One 64-bit remainder only - the same expression the code
         // computes - anything more and CBMC does not finish.)
-        let n: u64 = kani::any();
+        let n: u64 = if at_epoch_start {
+            let k: u32 = kani::any();
+            kani::assume(k >= 1);
+            k as u64 * E
+        } else {
+            kani::any()
+        };
         kani::assume(n >= 1 && n <= u64::MAX - 2 * E);
-        let rem = n % E;
+        let rem = if at_epoch_start { 0 } else { n % E };
         let off = if rem == 0 { 0 } else { E - rem };
         let d = n + off;
         let (next, durable): (u64, Option<u64>) = if fresh { (1, kani::any()) } else { (n, Some(d)) };
@@ -152,6 +164,17 @@ mod c12 {
         kani::cover!(ok && !epoch_start, "inside an epoch");
         kani::cover!(!ok, "store failure");
         kani::cover!(ok && next > u32::MAX as u64, "number beyond 32 bits");
+    }
+
+    /// Same contract at every epoch start `next == k * E`: the next epoch start is stored before the number is handed out.
+    // TIER: quick
+    // KIND: bounded (live counter = k * EPOCH for every 32-bit k >= 1; the states between epoch starts are covered by the Verus unit `events`)
+    #[cfg(verif_unclosed)] // CBMC time-out (600 s, loaded machine)
+    #[kani::proof]
+    fn c12_events_next_event_number_at_epoch_start() {
+        let (ok, _next, epoch_start) = check_next_event_number_at(false, true);
+        kani::cover!(ok && epoch_start, "epoch start after a restart or a full epoch");
+        kani::cover!(!ok, "store failure at an epoch start");
     }
 
     /// Same contract for the fresh / factory-reset state `next == 1` (whatever is stored).
